@@ -169,10 +169,18 @@ impl Prop for C01 {
         .boxed()
     }
     fn fixed_cases(tier: Tier) -> Vec<Case> {
-        let mut v = vec![big_case(3000, 7, 3), big_case(600, 1, 300)];
+        // the upper end of the items_per_slot range (the per-section item count is a u16):
+        // exactly one full section, one item more, and a second partly filled section
+        let mut v = vec![
+            big_case(3000, 7, 3),
+            big_case(600, 1, 300),
+            big_case(65_535, 65535, 1),
+            big_case(65_536, 65535, 1),
+            big_case(70_000, 65535, 1),
+        ];
         if tier == Tier::Thorough {
-            v.push(big_case(70_000, 65535, 1));
             v.push(big_case(140_000, 65535, 2));
+            v.push(big_case(200_000, 65534, 1));
         }
         v
     }
